@@ -181,6 +181,8 @@ func runC07(c *Ctx) {
 	r.Rule("delegate-errors", "in every delegating entry point each error returned by a tokenizer/parser/gosqlx callee is tested; its non-nil branch reaches only returns with a non-nil error and cannot reach the call again (first failure ends a batch)")
 	r.Rule("delegate-tokens", "the token slice given to the parser is the value the tokenizer (or the token conversion) returned")
 	r.Rule("delegate-input", "the text an entry point hands to the tokenizer (or to another entry point) is its own input parameter, unchanged up to string/[]byte conversion: an entry point that trims, slices or rewrites the text first accepts inputs the others reject and reports positions relative to a different text")
+	r.Rule("end-test-fresh", "in every statement loop of pkg/sql/parser the statement parser is called only on paths on which the current token has been compared with EOF since the cursor last moved (a copy that skips semicolons and parses on without looking again rejects `…;;` which its siblings accept)")
+	r.Floor("end-test-fresh", c07EndTest(c, p, "end-test-fresh", ""), 2, "statement-parser calls inside loops")
 	checkClones(c, "clone-parse", "pkg/sql/parser", "Parser", "Parse", parseLoopDeltas)
 	checkClones(c, "clone-tokenize", "pkg/sql/tokenizer", "Tokenizer", "Tokenize", tokenizeDeltas)
 	c07Converters(c, p)
@@ -651,6 +653,8 @@ func runC12(c *Ctx) {
 	}
 	checkClones(c, "recovery-clone", "pkg/sql/parser", "Parser", "Parse", parseLoopDeltas[2:3])
 	c12Anchor(c, p, m)
+	r.Rule("end-test-fresh", "the recovery loop calls the statement parser only on paths on which the current token has been compared with EOF since the cursor last moved (resynchronisation that ends at the last token must not produce a spurious \"expected statement, got EOF\" error)")
+	r.Floor("end-test-fresh", c07EndTest(c, p, "end-test-fresh", "parseWithRecovery"), 1, "statement-parser calls inside the recovery loop")
 	c12SyncKeywords(c, p)
 	c12SkipLoops(c, p)
 }
